@@ -56,6 +56,8 @@ pub struct Flow {
   pub cache: Arc<Mutex<TopicCache>>,
   pub wk: Option<WriterKit>,
   pub builtin: bool,
+  /// the sending endpoints belong to the third participant O instead of S
+  pub by_other: bool,
   /// channel ends of R's current reader
   pub kit_slot: Option<Box<dyn std::any::Any>>,
 }
@@ -97,6 +99,14 @@ pub fn builtin_eids(topic: &str) -> Option<(EntityId, EntityId)> {
 
 impl Pipe {
   pub fn new(gov: &str, topics: &[&str], k128: bool, with_other: bool, reliable: bool) -> Result<Pipe, String> {
+    let specs: Vec<(&str, bool, Option<(u8, u8)>)> = topics.iter().map(|t| (*t, false, None)).collect();
+    Self::build(gov, &specs, k128, with_other, reliable)
+  }
+
+  /// `specs`: (topic, sending endpoints at O instead of S, explicit (writer key, reader key) of the S->R direction)
+  pub fn build(gov: &str, specs: &[(&str, bool, Option<(u8, u8)>)], k128: bool, with_other: bool, reliable: bool) -> Result<Pipe, String> {
+    let topics: Vec<&str> = specs.iter().map(|x| x.0).collect();
+    let topics = &topics[..];
     crate::verif::clock::install(1_000_000);
     net::install();
     let mut c1 = Conf::std(1, gov);
@@ -122,20 +132,26 @@ impl Pipe {
     let mut flows = vec![];
     for (k, topic) in topics.iter().enumerate() {
       let k = k as u8 + 1;
-      let (builtin, we, re, rwe, sre) = match builtin_eids(topic) {
+      let (builtin, mut we, mut re, rwe, sre) = match builtin_eids(topic) {
         Some((we, re)) => (true, we, re, we, re),
         None => {
           let (a, b, c, d) = user_eids(k);
           (false, a, b, c, d)
         }
       };
-      let (w, w_attrs) = s.add_writer(we, topic)?;
+      let (_, by_other, keys) = specs[k as usize - 1];
+      if let Some((wk, rk)) = keys {
+        we = user_eids(wk).0;
+        re = user_eids(rk).1;
+      }
+      let owner: &Part = if by_other { o.as_ref().ok_or("MACHINERY: no third participant")? } else { &s };
+      let (w, w_attrs) = owner.add_writer(we, topic)?;
       let (rg, r_attrs) = r.add_reader(re, topic)?;
-      match_pair(&s, w, &w_attrs, &r, rg, &r_attrs)?;
-      // reverse direction: R's writer, S's reader
+      match_pair(owner, w, &w_attrs, &r, rg, &r_attrs)?;
+      // reverse direction: R's writer, the owner's reader
       let (rw, rw_attrs) = r.add_writer(rwe, topic)?;
-      let (sr, sr_attrs) = s.add_reader(sre, topic)?;
-      match_pair(&r, rw, &rw_attrs, &s, sr, &sr_attrs)?;
+      let (sr, sr_attrs) = owner.add_reader(sre, topic)?;
+      match_pair(&r, rw, &rw_attrs, owner, sr, &sr_attrs)?;
       // R's real reader
       let mut kit = with_security(Some(r.h.clone()), || mk_reader(rg, topic, "Msg", &q));
       let mut reader = kit.reader.take().unwrap();
@@ -144,11 +160,11 @@ impl Pipe {
       let cache = kit.topic_cache.clone();
       let kit_slot: Option<Box<dyn std::any::Any>> = Some(Box::new(kit));
       // S's real writer
-      let mut wk = with_security(Some(s.h.clone()), || mk_writer(w, topic, &q, 64));
+      let mut wk = with_security(Some(owner.h.clone()), || mk_writer(w, topic, &q, 64));
       let mut rp = RtpsReaderProxy::new(rg, q.clone(), false);
       rp.unicast_locator_list = vec![loc(R_PORT)];
       wk.writer.update_reader_proxy(&rp, &q);
-      flows.push(Flow { topic: (*topic).into(), w, w_attrs, r: rg, r_attrs, rw, sr, cache, wk: Some(wk), builtin, kit_slot });
+      flows.push(Flow { topic: (*topic).into(), w, w_attrs, r: rg, r_attrs, rw, sr, cache, wk: Some(wk), builtin, by_other, kit_slot });
     }
     net::drain();
     Ok(Pipe { s, r, o, mr: rk.mr, acknack_rx: rk.acknack_rx, flows, next_sn: BTreeMap::new(), keep: vec![Box::new(rk.keep), Box::new(keep)] })
